@@ -54,7 +54,7 @@ def validate(ctx, c, runs, prop, tier="quick", healthy=False, too_big=(), observ
             tag = name
         else:
             step, kind, sched, idx = job
-            reset = {"calls": 2, "argsize": 9, "step": step, "kind": kind}
+            reset = {"calls": r.get("calls", 2), "argsize": 9, "step": step, "kind": kind}
             tag = "%s.%s.%s%d" % (step, kind, sched, idx)
         end = {"res": r["res"], "code": -1 if r.get("loose_end") and r["res"] == "exit" else r["code"], "nout": None}
         execs.append(dict(tag=tag, path=r["trace"], reset=reset, end=end, disp=disp, stdout_lines=len(r["stdout"].decode(errors="replace").splitlines()), healthy=healthy))
@@ -148,3 +148,35 @@ def validate(ctx, c, runs, prop, tier="quick", healthy=False, too_big=(), observ
         if any(v2 == "ACCEPTED" for v2 in res.values()):
             raise InfraError("trace validation accepts a corrupted trace: %r" % res)
     return out
+
+
+def observed_decoder_switches(ctx, c, probe):
+    """Which decoder deviations does this tree show?  Two witness buffers through the real cop_deserialize_value."""
+    from lib.common import sh
+    cases = [{"k": "hostile", "buf": [c["TAG_STRING"], 255, 255, 255, 255], "n": 0, "hz": "oob", "x": {"t": "void", "l": [], "b": [], "et": 0, "xs": []}},
+             {"k": "hostile", "buf": [c["TAG_ARRAY"], 0, 255, 255, 255, 255, c["TAG_VOID"]], "n": 0, "hz": "alloc", "x": {"t": "void", "l": [], "b": [], "et": 0, "xs": []}}]
+    cf = os.path.join(ctx.dir("traces"), "switch-probe.ndjson")
+    with open(cf, "w") as f:
+        for x in cases:
+            f.write(json.dumps(x) + "\n")
+    p = sh([probe, cf], env=ctx.env(), check=False)
+    sw = set()
+    for l in p.stdout.splitlines():
+        if l.startswith("{") and '"crash":true' in l:
+            sw.add({"oob": "DE_LEN_WRAP", "alloc": "DE_COUNT_UNBOUNDED"}[json.loads(l)["hz"]])
+    return sw
+
+
+def replay_trace(ctx, c, probe, path, prop):
+    evs = [json.loads(l) for l in open(path) if l.strip()]
+    dev = set(observed_decoder_switches(ctx, c, probe))
+    if any(e.get("disp") == "default" for e in evs):
+        dev.add("VM_SIGPIPE_DEFAULT")
+    if c["REQBUF"] > 0:
+        dev.add("COP_REQBUF_FIXED")
+    exact = prop == "C16"
+    ok, reached, _, _ = run_tlc(ctx, c, evs, sorted(dev), exact, "replay")
+    print("trace %s: %d events, model switches %s: %s (events consumed: %d)" % (path, len(evs), sorted(dev), "accepted" if ok else "REJECTED", max(reached - 1, 0)))
+    if not ok:
+        print("VIOLATION property=%s replay=%s" % (prop, path))
+    return 0 if ok else 1
